@@ -16,6 +16,37 @@ for i, mn in enumerate(["src", "fin", "jin", "fim"]):
     OBLIGATIONS.append(g("pair_" + mn, "G_PAIR", ["DecodeOneRReg", "DecodeFIM", "DecodeRReg", "DecodeRRegCore"], mn.upper() + " x 8 pairs x both pair spellings, any 64-bit data value", form=i))
 for i, mn in enumerate(["jun", "jms", "jcn", "isz"]):
     OBLIGATIONS.append(g("jump_" + mn, "G_JUMP", ["DecodeFullJmp", "DecodeJCN", "DecodeISZ"], mn.upper() + ", any 64-bit target, any PC 0..$FFF", form=i))
-META = dict(outside=["8080/8085, 6502/65C02, Z80, MSP430, PIC16C8x, AVR (harnesses pending)", "mnemonic hash dispatch (asmitree.c)", "operand text parsing beyond the concrete forms",
+BPIC = dict(src="c16c8x.c", include=["code16c8x.c"], units=["asmdef.c", "bpemu.c"], stubs=["diag.c", "fmt_off.c"], unwind=24, unwind_fn={"harness": 30, "LookupInstTable": 260}, timeout=1500,
+            assumes=B4004["assumes"] + ["destination operand given explicitly (W/F/0/1); the assembler's choice of a default destination is not an ISA matter"])
+def gp(name, d, fn, bounds):
+    o = dict(BPIC); o.update(name="pic16_" + name, defs=[d, "STRINGSIZE=16"], functions=["code16c8x.c:" + f for f in fn] + ["code16c8x.c:MakeCode_16c8x", "code16c8x.c:InitFields", "code16c8x.c:SwitchTo_16c8x"], bounds=bounds); return o
+OBLIGATIONS += [
+    gp("byte", "G_BYTE", ["DecodeAri", "EvalFExpression"], "14 byte-oriented operations x destination W/F/0/1, any 64-bit file address, 6 CPU variants"),
+    gp("bit", "G_BIT", ["DecodeBit", "EvalFExpression"], "BCF/BSF/BTFSC/BTFSS, any 64-bit bit number and file address"),
+    gp("lit", "G_LIT", ["DecodeLit", "DecodeF", "DecodeFixed"], "7 literal operations (any 64-bit literal), CLRF/MOVWF, 6 operand-less instructions"),
+    gp("jump", "G_JUMP", ["DecodeJump"], "GOTO/CALL, any 64-bit target, any PC < $2000, 6 CPU variants (program memory size)"),
+]
+B85 = dict(src="c85.c", include=["code85.c"], units=["asmdef.c", "bpemu.c"], stubs=["diag.c", "fmt_off.c"], unwind=24, unwind_fn={"harness": 40, "LookupInstTable": 260}, timeout=1500,
+           assumes=B4004["assumes"] + ["Intel (808x) syntax mode; Z80-syntax forms, undocumented 8085 instructions and pseudo instructions are not covered"])
+def g85(name, d, fn, bounds, form=None, cpu=1):
+    o = dict(B85); o.update(name="i8085_" + name + ("" if cpu == 1 else "_cpu%d" % cpu), defs=[d, "STRINGSIZE=16", "CPUV=%d" % cpu] + (["FORM=%d" % form] if form is not None else []),
+                            functions=["code85.c:" + f for f in fn] + ["code85.c:MakeCode_85", "code85.c:InitFields", "code85.c:SwitchTo_85"], bounds=bounds); return o
+OBLIGATIONS += [
+    g85("fixed", "G_FIXED", ["DecodeFixed", "DecodeRET", "DecodeRLC"], "27 operand-less instructions on the 8080 (RIM/SIM rejected)"),
+    g85("op16", "G_OP16", ["DecodeOp16", "DecodeJP", "DecodeCP", "DecodeCALL", "DecodeAdr_Z80"], "22 instructions with a 16-bit address, any 64-bit operand value"),
+    g85("op8", "G_OP8", ["DecodeOp8", "DecodeINOUT"], "8 immediate instructions + IN/OUT, any 64-bit operand value"),
+    g85("reg8", "G_REG8", ["DecodeMVI", "DecodeINR_DCR", "DecodeReg8"], "MVI/INR/DCR x 8 registers, any data value"),
+    g85("rp", "G_RP", ["DecodeLXI", "DecodeINX_DCX", "DecodeDAD", "DecodePUSH_POP", "DecodeLDAX_STAX", "DecodeReg16"], "LXI/INX/DCX/DAD/PUSH/POP/LDAX/STAX x register pairs, any data value"),
+    g85("rst", "G_RST", ["DecodeRST"], "RST with any 64-bit operand value"),
+    g85("fixed", "G_FIXED", ["DecodeFixed", "DecodeRET", "DecodeRLC"], "27 operand-less instructions on the 8085", cpu=2),
+    g85("fixed", "G_FIXED", ["DecodeFixed", "DecodeRET", "DecodeRLC"], "27 operand-less instructions on the 8085UNDOC", cpu=3),
+    g85("rst", "G_RST", ["DecodeRST"], "RST with any 64-bit operand value (8085UNDOC: RST V is a separate form, not covered)", cpu=3),
+    g85("rp", "G_RP", ["DecodeLXI", "DecodeINX_DCX", "DecodeDAD", "DecodePUSH_POP", "DecodeLDAX_STAX", "DecodeReg16"], "register-pair instructions on the 8085UNDOC", cpu=3),
+]
+for i, mn in enumerate(["add", "adc", "sub", "sbb", "ana", "xra", "ora", "cmp"]):
+    OBLIGATIONS.append(g85("alu_" + mn, "G_ALU", ["DecodeALU", "DecodeADD", "DecodeADC", "DecodeSUB", "DecodeReg8"], mn.upper() + " x 8 registers", form=i))
+for i, rn in enumerate("bcdehlma"):
+    OBLIGATIONS.append(g85("mov_" + rn, "G_MOV", ["DecodeMOV", "DecodeReg8"], "MOV %s,r for 8 source registers" % rn.upper(), form=i))
+META = dict(outside=["6502/65C02, Z80, MSP430, AVR (no harness)", "8080/8085: Z80-syntax mode, undocumented 8085 instructions", "PIC16: default destination, OPTION/TRIS/BANKSEL/SFR/ZERO/DATA pseudo forms", "mnemonic hash dispatch (asmitree.c)", "operand text parsing beyond the concrete forms",
                      "JCN with a numeric condition, DATA/DS/REG pseudo instructions"],
             assumptions=["malloc never fails"])
